@@ -163,3 +163,9 @@ def r6(rr, repo):
 def r7(rr, repo):
     from .c02 import r7 as c02r7
     c02r7(rr, repo)
+
+
+@rule('C07.R8', 'a balanced join delivers the frame of ONE branch as soon as it is complete: branches with nothing yet do not hold it back, a partial branch does (shares C01.R6, both directions)')
+def r8(rr, repo):
+    from .c01 import r6 as c01r6
+    c01r6(rr, repo)
